@@ -25,11 +25,11 @@ func coqConf(h Hist) string {
 		"cf_max_wp := %d; cf_min_wp := %d; cf_max_rp := %d; cf_min_alloc := %d; cf_min_blobber_cap := 1024; cf_mccr := %d; "+
 		"cf_min_lock_w := %d; cf_min_lock_r := %d; cf_nvr := %d; cf_free_data := %d; cf_free_parity := %d; cf_free_size := %d; "+
 		"cf_free_frac := %s; cf_free_max_wp := %d; cf_free_max_rp := %d; cf_max_indiv_free := %d; cf_max_total_free := %d; "+
-		"cf_owner := %d; cf_sc := %d; cf_electra := %s; cf_demeter := %s |}",
+		"cf_owner := %d; cf_sc := %d; cf_electra := %s; cf_demeter := %s; cf_ent := %s |}",
 		c.TimeUnitSec*1000000000, f64term(c.ValidatorReward), f64term(c.BlobberSlash), f64term(c.CancellationCharge), f64term(c.KillSlash),
 		c.MaxWritePrice, c.MinWritePrice, c.MaxReadPrice, c.MinAllocSize, c.MaxChalRounds, c.MinLockW, c.MinLockR, c.NumValRewarded,
 		c.FreeData, c.FreeParity, c.FreeSize, f64term(c.FreeReadFrac), c.FreeMaxWP, c.FreeMaxRP, c.MaxIndivFree, c.MaxTotalFree,
-		refOwner, refSC, optFork(c.Electra), optFork(c.Demeter))
+		refOwner, refSC, optFork(c.Electra), optFork(c.Demeter), vh.Bool(h.Ent))
 }
 
 func u(v uint64) string { return vh.ZU(v) }
